@@ -188,6 +188,8 @@ class _APEv2Data(object):
             # If we're reading the header, the size is the header
             # offset + the size, which includes the footer.
             self.end = self.data + self.size
+            if self.end > get_size(fileobj):
+                raise error("APE tag size exceeds the file size")
             fileobj.seek(self.end - 32, 0)
             if fileobj.read(8) == b"APETAGEX":
                 self.footer = self.end - 32
